@@ -16,6 +16,7 @@ import ast
 from ..model import AnalysisError, Func, Repo, dotted, is_name, norm, walk_shallow
 from ..report import Ledger
 from ..sym import B, Const, Join, Lin, Lookup, Star, State, Str, Sym, SymExec, Tup, as_lin, NotNumeric
+from ..fold import try_fold
 from ..util import names_in
 
 PROP = "C06"
@@ -81,6 +82,74 @@ def _lines(effects):
 def _s(v):
     """Unwrap str()."""
     return v.v if isinstance(v, Str) else None
+
+
+def _plain_sum(e):
+    """sum(<v>.length for <v> in self.rows) -> True; the same with a filter / another attribute -> reason; else None"""
+    if isinstance(e, ast.Call) and dotted(e.func) == "sum" and e.args and isinstance(e.args[0], ast.GeneratorExp | ast.ListComp) and len(e.args[0].generators) == 1:
+        g = e.args[0]
+        gen = g.generators[0]
+        if norm(gen.iter) != "self.rows" or not isinstance(gen.target, ast.Name):
+            return None
+        if gen.ifs:
+            return f"the sum skips rows ({norm(gen.ifs[0])[:40]})"
+        if norm(g.elt) != f"{gen.target.id}.length":
+            return f"the sum adds '{norm(g.elt)[:40]}', not the row length"
+        if len(e.args) > 1 and try_fold(e.args[1], default=None) not in (0, None):
+            return "the sum starts from a non-zero value"
+        return True
+    return None
+
+
+def _scaffold_length_form(repo, scf, sl):
+    """-> (True, '') plain sum | (False, why) positively refuted | raises AnalysisError for a form that is not understood.
+    A memoised length (value kept in an attribute of the scaffold) is refuted when the only thing its validity test looks at is
+    the *number* of rows while rows are also replaced one-for-one in place somewhere in the package."""
+    rets = [n for n in walk_shallow(sl.node) if isinstance(n, ast.Return)]
+    if len(rets) == 1:
+        ps = _plain_sum(rets[0].value)
+        if ps is True:
+            return True, "", sl
+        if isinstance(ps, str):
+            return False, f"Scaffold.length is not the plain sum of its rows' lengths: {ps}", sl
+    # memo forms: the function itself, or a property of the class it reads, keeps a value in an attribute of self
+    cands = [sl]
+    for n in walk_shallow(sl.node):
+        if isinstance(n, ast.Attribute) and is_name(n.value, "self"):
+            m = repo.find_method(scf, n.attr)
+            if m is not None and m.is_property and m is not sl:
+                cands.append(m)
+    for m in cands:
+        stores = [n for n in walk_shallow(m.node) if isinstance(n, ast.Assign) and any(isinstance(t, ast.Attribute) and is_name(t.value, "self") for t in n.targets)]
+        if not stores:
+            continue
+        attr = next(t.attr for n in stores for t in n.targets if isinstance(t, ast.Attribute) and is_name(t.value, "self"))
+        tests = [n.test for n in walk_shallow(m.node) if isinstance(n, ast.If | ast.IfExp | ast.While)]
+        rows_mentions = [x for t in tests for x in ast.walk(t) if isinstance(x, ast.Attribute) and norm(x) == "self.rows"]
+        local_rows = {n.targets[0].id for n in walk_shallow(m.node) if isinstance(n, ast.Assign) and isinstance(n.targets[0], ast.Name) and norm(n.value) == "self.rows"}
+        rows_mentions += [x for t in tests for x in ast.walk(t) if isinstance(x, ast.Name) and x.id in local_rows]
+        only_len = all(isinstance(getattr(x, "_parent", None), ast.Call) and dotted(x._parent.func) == "len" for x in rows_mentions)
+        if not only_len:
+            raise AnalysisError(f"{m.short}: the scaffold length is memoised in self.{attr} and the memo is validated against the rows themselves: whether it can be stale is not decided")
+        # the memo is valid as long as the row count is unchanged: look for one-for-one replacement of a row
+        repl = []
+        for g in repo.functions.values():
+            for n in walk_shallow(g.node):
+                if isinstance(n, ast.Assign):
+                    for t in n.targets:
+                        if isinstance(t, ast.Subscript) and isinstance(t.value, ast.Attribute) and t.value.attr == "rows" and not isinstance(t.slice, ast.Slice):
+                            # does the same function drop the memo?
+                            drops = any(isinstance(x, ast.Assign) and any(isinstance(tt, ast.Attribute) and tt.attr == attr for tt in x.targets) for x in walk_shallow(g.node))
+                            if not drops:
+                                repl.append((g, n))
+        if repl:
+            g, n = repl[0]
+            return False, (
+                f"Scaffold.length is memoised in self.{attr} by {m.short} and reused while the number of rows is unchanged, but {g.short} replaces a row in place "
+                f"('{norm(n)[:50]}', {g.loc(n)}) without dropping the memo: after a fragment is cut the scaffold still reports its old length, so the last object end of the AGP no longer equals it"
+            ), m
+        raise AnalysisError(f"{m.short}: the scaffold length is memoised in self.{attr}; no in-place row replacement found, staleness not decided")
+    raise AnalysisError(f"{sl.short}: how the scaffold length is computed is not a form understood (plain sum over self.rows, or a memo of it)")
 
 
 def run(repo: Repo, L: Ledger, tier: str):
@@ -252,15 +321,10 @@ def run(repo: Repo, L: Ledger, tier: str):
     L.check(gl is not None and gl.is_property, "O7", "Gap.length", "gap length is a stored field", "Gap.length vanished", gap.module.relpath)
     scf = repo.cls("Scaffold")
     sl = repo.find_method(scf, "length")
-    ok8 = False
-    if sl is not None:
-        rets = [n for n in walk_shallow(sl.node) if isinstance(n, ast.Return)]
-        if len(rets) == 1 and isinstance(rets[0].value, ast.Call) and dotted(rets[0].value.func) == "sum":
-            g = rets[0].value.args[0]
-            if isinstance(g, ast.GeneratorExp | ast.ListComp) and len(g.generators) == 1 and not g.generators[0].ifs and norm(g.generators[0].iter) == "self.rows":
-                v = g.generators[0].target.id
-                ok8 = norm(g.elt) == f"{v}.length" and len(rets[0].value.args) == 1
-    L.check(ok8, "O8", "Scaffold.length", "Σ row.length over all rows: last object end == scaffold length", "Scaffold.length is not the plain sum of its rows' lengths", sl.loc() if sl else "")
+    if sl is None:
+        raise AnalysisError("anchor Scaffold.length vanished")
+    verdict, why8, at8 = _scaffold_length_form(repo, scf, sl)
+    L.check(verdict, "O8", "Scaffold.length", "Σ row.length over all rows: last object end == scaffold length", why8, at8.loc())
     # row iteration is over the unfiltered rows list, header lines do not interleave
     loops = [n for n in walk_shallow(fmt.node) if isinstance(n, ast.For)]
     row_loops = [l for l in loops if "rows" in norm(l.iter)]
